@@ -183,6 +183,9 @@ def explore_cfg(acc: Acc, cfg: Cfg, tier: str, only_k: Optional[int] = None, onl
         acc.count("traces")
         acc.count("states")
         acc.count("transitions", c1.packets)
+        working = list(getattr(s.classqueue, "working", ()))
+        if len(working) != len(set(working)):
+            acc.count("crash_points_with_a_repeated_label_in_the_working_deque")
         if o1.startswith("exception"):
             rep.v("exception", o1.split("@", 1)[1], f"interrupting at packet {k}: {o1}: {str(e1)[:200]}", k=k, k2=None)
             continue
@@ -241,11 +244,14 @@ def explore_cfg(acc: Acc, cfg: Cfg, tier: str, only_k: Optional[int] = None, onl
 def configs(tier: str) -> List[Cfg]:
     classes = dw.start_classes("quick")
     if tier == "quick":
-        plans = [("base", ()), ("norm+sym", ("a", "ab")), ("ver:a,b", ()), ("inf2", ("a",)), ("oneway+inf1", ())]
+        plans = [("base", ()), ("norm+sym", ("a", "ab")), ("ver:a,b", ()), ("inf2", ("a",)), ("oneway+inf1", ()),
+                 # packs whose work packets produce the same unprocessed class twice: crash points at
+                 # which the queue's working deque holds a label more than once
+                 ("sfac", ()), ("rfac3", ())]
         dbs = DBS
     else:
         plans = [("base", ()), ("base", ("a", "ab")), ("norm+sym", ("a", "ab")), ("sym", ()), ("ver:a,b", ()), ("ver:e", ("a",)),
-                 ("inf2", ("a",)), ("inf1", ()), ("rfac", ()), ("sfac", ()), ("two", ()), ("base+iter", ()), ("rfac+sym", ("a",)), ("oneway+inf1", ()), ("onewayexp+inf1+sym", ()), ("oneway+inf2", ("a",)), ("rfac2", ())]
+                 ("inf2", ("a",)), ("inf1", ()), ("rfac", ()), ("sfac", ()), ("two", ()), ("rfac3", ()), ("base+iter", ()), ("rfac+sym", ("a",)), ("oneway+inf1", ()), ("onewayexp+inf1+sym", ()), ("oneway+inf2", ("a",)), ("rfac2", ())]
         dbs = DBS
     res = []
     for c in classes:
@@ -335,6 +341,105 @@ def time_limit_anywhere(acc: Acc, cfg: Cfg, horizon: int) -> None:
         acc.nt((cfg.sid(), "limit-at-call", i))
 
 
+def expansion_searchers(acc: Acc, cfg: Cfg, horizon: int) -> None:
+    """The searchers that CombinatorialSpecification.expand_comb_class builds while verified
+    classes are expanded: a forest database seeded with the rules of the old specification
+    (held in its rule cache, not derivable from the pack) and the pack offered by the
+    verification strategy.  Crash point: right before such a searcher starts.  The restored
+    searcher must equal the original, and the expansion is *continued with the restored one*:
+    it must end like the original (result / same exception), and the expanded specification
+    must enumerate the start class (C01 oracle)."""
+    from comb_spec_searcher.comb_spec_searcher import CombinatorialSpecificationSearcher as CSS
+    from mc.search import execute
+
+    ex = execute(cfg, (), slice_default=0, horizon=horizon)
+    acc.count("traces")
+    if ex.outcome != "spec":
+        return
+    spec = ex.spec
+    if not list(spec.unexpanded_verified_classes()):
+        return
+    rep = Reporter(acc, cfg, {"cfg": cfg.to_json(), "tier": "quick", "expansion": True, "horizon": horizon})
+    orig = CSS._auto_search_rules
+    state = {"n": 0}
+
+    def wrapped(self, *a, **kw):
+        state["n"] += 1
+        n = state["n"]
+        acc.count("states")
+        acc.count("evaluations")
+        acc.nt((cfg.sid(), "expansion-searcher", n))
+        try:
+            r = pickle.loads(pickle.dumps(self))
+        except Exception as e:  # noqa: BLE001
+            rep.v("pickle-fails", "pickle", f"expansion searcher {n}: {type(e).__name__}: {str(e)[:200]}")
+            return orig(self, *a, **kw)
+        try:
+            same = (r == self) and (self == r)
+        except Exception as e:  # noqa: BLE001
+            rep.v("restored-equality-raises", call_site(e), f"expansion searcher {n}: {type(e).__name__}: {str(e)[:160]}")
+            same = True
+        if not same:
+            parts = [key for key in vars(self) if vars(self)[key] != vars(r).get(key)]
+            rep.v("restored!=original", "CombinatorialSpecificationSearcher.__eq__", f"expansion searcher {n} (forest database seeded through its rule cache): the restored searcher is not equal to the original (differs on {parts})")
+        res = {}
+        for who, x in (("original", self), ("restored", r)):
+            try:
+                res[who] = ("rules", orig(x, *a, **kw))
+            except HarnessError:
+                raise
+            except Exception as e:  # noqa: BLE001
+                res[who] = ("exception:" + type(e).__name__, e)
+            acc.count("traces")
+        if res["original"][0] != res["restored"][0]:
+            rep.v("restored-diverges", call_site(res["restored"][1]) if res["restored"][0] != "rules" else "CombinatorialSpecificationSearcher.__setstate__",
+                  f"expansion searcher {n}: original ends with {res['original'][0]}, restored with {res['restored'][0]}: {str(res['restored'][1])[:160]}")
+        kind, val = res["restored"] if res["restored"][0] == "rules" else res["original"]
+        if kind != "rules":
+            raise val
+        return val
+
+    dec = env.Decisions()
+    clock = env.VirtualClock(dec, slice_default=0, horizon=200)
+    CSS._auto_search_rules = wrapped
+    try:
+        with env.seams(clock=clock, dec=dec):
+            try:
+                with deadline(120):
+                    new = spec.expand_verified()
+            except HarnessError:
+                raise
+            except Exception as e:  # noqa: BLE001
+                # C19 reports failures of the expansion itself; here only differences matter
+                acc.count("expansions_that_raise")
+                return
+    finally:
+        CSS._auto_search_rules = orig
+    try:
+        probs = count_problems(new, cfg.start(), N)
+    except Exception as e:  # noqa: BLE001
+        probs = [f"{type(e).__name__}: {str(e)[:160]}"]
+    for p in probs[:1]:
+        rep.v("final-specification-invalid", "CombinatorialSpecification.expand_comb_class", "expansion continued with restored searchers: " + p)
+
+
+def expansion_configs(tier: str) -> List[Cfg]:
+    classes = dw.start_classes("quick")
+    packs = ["ver:a,b", "ver:e,a", "ver2:a>ab"] if tier == "quick" else ["ver:a,b", "ver:e,a", "ver:e", "ver:b,ab", "ver:a,b+inf1", "ver:a,b+sym", "ver2:a>ab", "ver2:e>a", "ver2:e,b>a,ba"]
+    stats = [()] if tier == "quick" else [(), ("a", "ab")]
+    return [Cfg.of(c.with_(stats=st), pk, db) for c in classes for st in stats for pk in packs for db in DBS]
+
+
+def _worker_expansion(arg) -> Acc:
+    items, tier = arg
+    acc = Acc()
+    for cfgj in items:
+        expansion_searchers(acc, Cfg.from_json(cfgj), 60 if tier == "quick" else 120)
+        env.clear_library_caches()
+    dw._BF_CACHE.clear()
+    return acc
+
+
 def _worker(arg) -> Acc:
     cfgj, tier, conf = arg
     cfg = Cfg.from_json(cfgj)
@@ -360,16 +465,25 @@ def run(ctx: Ctx) -> None:
         "clock, pickle round trip, continue original and restored to the end and through further interruption points (quick: "
         "the next 3 and the last; thorough: every one), compare with the uninterrupted run having a check point at k; "
         "for a sub-family, the time limit expiring just before every single time() call of the run (any call site), then the same further call; "
+        "for every specification with expandable verified classes, every searcher built by expand_comb_class (forest database seeded through its rule cache) "
+        "pickled right before it starts and the expansion continued with the restored searcher; "
         "non-trivial = distinct (configuration, crash point) pairs"
     )
     ctx.assumptions = ["virtual clock site classification, validated here by the reduction-conformance run (one leap at every time() call index)"]
     ctx.bounds = {"configurations": len(cfgs), "horizon_packets": 30 if ctx.quick else 60}
     conf_every = 29 if ctx.quick else 7
     ctx.pmap(_worker, [(c.to_json(), ctx.tier, i % conf_every == 0) for i, c in enumerate(cfgs)], chunksize=1)
+    items = [c.to_json() for c in expansion_configs(ctx.tier)]
+    ctx.bounds["expansion_configurations"] = len(items)
+    chunk = 8
+    ctx.pmap(_worker_expansion, [(items[i : i + chunk], ctx.tier) for i in range(0, len(items), chunk)])
 
 
 def replay(acc: Acc, payload: dict) -> None:
     cfg = Cfg.from_json(payload["cfg"])
+    if payload.get("expansion"):
+        expansion_searchers(acc, cfg, payload["horizon"])
+        return
     if payload.get("time_limit_at_call") is not None:
         time_limit_anywhere(acc, cfg, payload["horizon"])
         return
